@@ -22,6 +22,12 @@ def history_check(prop, tier, seed, shapes, monitors, modules, profiles, p_inval
     suites.append(run_suite(prop, b, profiles, monitors, "boundary"))
     r = gen.vec_random(shapes, z["nrand"], z["nops"], seed, p_invalid=p_invalid)
     suites.append(run_suite(prop, r, profiles, monitors, "random"))
+    if prop == "C03":
+        # every other API that moves ownership: RefMut::replace, pointer writes, writes through views and iterators
+        L = min(z["L"], 4)
+        extra = gen.refs_scenarios(shapes, L) + [s for s in gen.ptr_scenarios(shapes, L) if s.tag != "ptr-read"] + \
+                [s for s in gen.iter_scenarios(shapes, min(L, 3)) if s.tag == "itermut"]
+        suites.append(run_suite(prop, extra, profiles, monitors, "refs-ptr", compare_model=False))
     if prop == "C02":
         suites.append(run_suite(prop, gen.slicemut_invalid(shapes, min(z["L"], 4), seed), profiles, monitors, "slicemut", compare_model=False))
     def widen():
